@@ -27,7 +27,7 @@
 #include <new>
 #include <cstdlib>
 #include <unordered_map>
-#include <unistd.h>
+#include <sys/time.h>
 
 // Count the blocks obtained from the global allocation functions (small_vector calls
 // ::operator new / ::operator delete directly, std::string goes through std::allocator):
@@ -439,7 +439,10 @@ int main()
   while (std::getline(std::cin, line))
   {
     const auto t = verif::split(line);
-    alarm(20);   // a request that does not terminate (e.g. a destroy loop that ran past `end`) is a result
+    // a request that does not terminate (e.g. a destroy loop that ran past `end`) is a result:
+    // SIGVTALRM after 2 s of CPU time spent in one request kills the process
+    struct itimerval tv = {{0, 0}, {2, 0}};
+    setitimer(ITIMER_VIRTUAL, &tv, nullptr);
     if (t.empty()) { std::cout << "bad-op" << std::endl; continue; }
     if (t[0] == "new")
     {
